@@ -1,11 +1,1847 @@
-// In-crate verification harness (stub; see /verif/docs/SLICE_GUIDE.md).
+// In-crate verification harness for property C11 (area `crash`).
+//
+// Child module `relayer::verif` of astria-sequencer-relayer (feature `verif-crash`, cfg(test)).
+// It runs the REAL `Relayer::run` (reader + `BlobSubmitter::run` + the submission-state file code)
+// against three in-process fakes (Celestia app gRPC, sequencer gRPC, CometBFT JSON-RPC) inside a
+// current-thread tokio runtime with paused time, and lets a seeded controller decide, step by
+// step, what the environment does next: run the one queued blocking file-system operation,
+// answer a held RPC with some outcome, let time pass, include / drop a mempool transaction,
+// produce more sequencer blocks, kill the process (drop the runtime) or restart it from the
+// state file.  One trace line per controller step with the state file, the temp file, the held
+// requests, the fake chain and the relayer's public status after the step.
+//
+// Determinism: every blocking fs operation of the relayer is held behind a gate task on a
+// one-thread blocking pool and released one at a time (handshake over std channels); RPC
+// handlers park their request until the controller answers; the controller only continues
+// once every task of the runtime is idle (`on_thread_park`) for several I/O polls in a row;
+// time moves only by explicit `advance`.
 #![allow(clippy::pedantic, clippy::all, dead_code, unused_imports)]
 
 #[path = "/verif/harness/common.rs"]
 mod common;
 
+use std::{
+    collections::HashMap,
+    path::PathBuf,
+    sync::{
+        atomic::{
+            AtomicU64,
+            Ordering,
+        },
+        Arc,
+        Mutex,
+    },
+    time::Duration,
+};
+
+use astria_core::{
+    generated::{
+        astria::sequencerblock::v1::{
+            sequencer_service_server::{
+                SequencerService,
+                SequencerServiceServer,
+            },
+            FilteredSequencerBlock as RawFilteredSequencerBlock,
+            GetFilteredSequencerBlockRequest,
+            GetPendingNonceRequest,
+            GetPendingNonceResponse,
+            GetSequencerBlockRequest,
+            SequencerBlock as RawSequencerBlock,
+            SubmittedMetadataList,
+        },
+        celestia::v1::{
+            query_server::{
+                Query as BlobQueryService,
+                QueryServer as BlobQueryServer,
+            },
+            Params as BlobParams,
+            QueryParamsRequest as QueryBlobParamsRequest,
+            QueryParamsResponse as QueryBlobParamsResponse,
+        },
+        cosmos::{
+            auth::v1beta1::{
+                query_server::{
+                    Query as AuthQueryService,
+                    QueryServer as AuthQueryServer,
+                },
+                BaseAccount,
+                Params as AuthParams,
+                QueryAccountRequest,
+                QueryAccountResponse,
+                QueryParamsRequest as QueryAuthParamsRequest,
+                QueryParamsResponse as QueryAuthParamsResponse,
+            },
+            base::{
+                abci::v1beta1::TxResponse,
+                node::v1beta1::{
+                    service_server::{
+                        Service as MinGasPriceService,
+                        ServiceServer as MinGasPriceServer,
+                    },
+                    ConfigRequest as MinGasPriceRequest,
+                    ConfigResponse as MinGasPriceResponse,
+                },
+                tendermint::v1beta1::{
+                    service_server::{
+                        Service as NodeInfoService,
+                        ServiceServer as NodeInfoServer,
+                    },
+                    GetNodeInfoRequest,
+                    GetNodeInfoResponse,
+                },
+            },
+            tx::v1beta1::{
+                service_server::{
+                    Service as TxService,
+                    ServiceServer as TxServer,
+                },
+                BroadcastTxRequest,
+                BroadcastTxResponse,
+                GetTxRequest,
+                GetTxResponse,
+            },
+        },
+        sequencerblock::v1::{
+            GetUpgradesInfoRequest,
+            GetUpgradesInfoResponse,
+            GetValidatorNameRequest,
+            GetValidatorNameResponse,
+        },
+        tendermint::{
+            p2p::DefaultNodeInfo,
+            types::BlobTx,
+        },
+    },
+    primitive::v1::RollupId,
+    protocol::test_utils::ConfigureSequencerBlock,
+    sequencerblock::v1::block,
+};
+use common::{
+    Rng,
+    Trace,
+};
+use prost::{
+    Message as _,
+    Name as _,
+};
+use sha2::{
+    Digest as _,
+    Sha256,
+};
+use telemetry::Metrics as _;
+use tokio::sync::{
+    oneshot,
+    Notify,
+};
+use tonic::{
+    transport::Server,
+    Request,
+    Response,
+    Status,
+};
+
+const SEQUENCER_CHAIN_ID: &str = "verif-sequencer";
+const CELESTIA_CHAIN_ID: &str = "verif-celestia";
+/// consecutive quiet rounds (all tasks idle + one I/O poll without any fake seeing anything)
+/// before the system counts as quiescent
+const QUIET_ROUNDS: u32 = 12;
+
+// ---------------------------------------------------------------------------------------------
+// persistent world (survives crashes): fake Celestia chain + mempool, sequencer height, disk
+// ---------------------------------------------------------------------------------------------
+
+struct TxRec {
+    hash: String, // lower-case hex of sha256(BlobTx.tx)
+    heights: Vec<u64>,
+}
+
+enum Responder {
+    Fetch(oneshot::Sender<Result<RawSequencerBlock, Status>>),
+    Bcast(oneshot::Sender<Result<BroadcastTxResponse, Status>>),
+    GetTx(oneshot::Sender<Result<GetTxResponse, Status>>),
+}
+
+impl Responder {
+    fn is_closed(&self) -> bool {
+        match self {
+            Responder::Fetch(s) => s.is_closed(),
+            Responder::Bcast(s) => s.is_closed(),
+            Responder::GetTx(s) => s.is_closed(),
+        }
+    }
+}
+
+#[derive(Clone, Copy, PartialEq, Eq, PartialOrd, Ord)]
+enum PKind {
+    Fetch(u64),
+    Bcast(u64),
+    GetTx(u64),
+}
+
+struct Pending {
+    kind: PKind,
+    responder: Responder,
+}
+
+struct World {
+    base: u64,
+    /// hash -> tx id (1-based, in order of first appearance anywhere: temp file, state file, RPC)
+    ids: HashMap<String, u64>,
+    txs: Vec<TxRec>, // index = id - 1
+    mempool: Vec<u64>,
+    chain: Vec<(u64, u64)>, // (celestia height, tx id)
+    cheight: u64,
+    latest: u64,
+    acct_seq: u64,
+    n_prepare: u64,
+    // disk while the relayer is down (while it is up the session directory is the truth)
+    file: Option<Vec<u8>>,
+    tmp: Option<Vec<u8>>,
+    saved_file: Option<Option<Vec<u8>>>,
+    // in-session
+    pending: Vec<Pending>,
+    graveyard: Vec<Pending>,
+    activity: u64,
+    celestia_rpcs: u64,
+}
+
+impl World {
+    fn new(base: u64) -> Self {
+        let file = if base == 0 {
+            br#"{"state":"fresh"}"#.to_vec()
+        } else {
+            format!(
+                "{{\n  \"state\": \"started\",\n  \"last_submission\": {{\n    \
+                 \"celestia_height\": 5,\n    \"sequencer_height\": {base}\n  }}\n}}"
+            )
+            .into_bytes()
+        };
+        World {
+            base,
+            ids: HashMap::new(),
+            txs: vec![],
+            mempool: vec![],
+            chain: vec![],
+            cheight: 10,
+            latest: base,
+            acct_seq: 53,
+            n_prepare: 0,
+            file: Some(file),
+            tmp: None,
+            saved_file: None,
+            pending: vec![],
+            graveyard: vec![],
+            activity: 0,
+            celestia_rpcs: 0,
+        }
+    }
+
+    fn id_of_hash(&mut self, hash: &str) -> u64 {
+        let hash = hash.to_ascii_lowercase();
+        if let Some(id) = self.ids.get(&hash) {
+            return *id;
+        }
+        self.txs.push(TxRec {
+            hash: hash.clone(),
+            heights: vec![],
+        });
+        let id = self.txs.len() as u64;
+        self.ids.insert(hash, id);
+        id
+    }
+
+    fn fmt_tx(&self, id: u64) -> String {
+        let hs: Vec<String> = self.txs[(id - 1) as usize]
+            .heights
+            .iter()
+            .map(u64::to_string)
+            .collect();
+        format!("t{id}[{}]", hs.join(","))
+    }
+
+    fn confirmed_at(&self, id: u64) -> Option<u64> {
+        self.chain.iter().find(|(_, t)| *t == id).map(|(h, _)| *h)
+    }
+}
+
+type Shared = Arc<Mutex<World>>;
+
+// ---------------------------------------------------------------------------------------------
+// fakes
+// ---------------------------------------------------------------------------------------------
+
+#[derive(Clone)]
+struct CelestiaFake(Shared);
+
+#[async_trait::async_trait]
+impl NodeInfoService for CelestiaFake {
+    async fn get_node_info(
+        self: Arc<Self>,
+        _request: Request<GetNodeInfoRequest>,
+    ) -> Result<Response<GetNodeInfoResponse>, Status> {
+        self.0.lock().unwrap().activity += 1;
+        Ok(Response::new(GetNodeInfoResponse {
+            default_node_info: Some(DefaultNodeInfo {
+                network: CELESTIA_CHAIN_ID.to_string(),
+                ..Default::default()
+            }),
+            ..Default::default()
+        }))
+    }
+}
+
+#[async_trait::async_trait]
+impl AuthQueryService for CelestiaFake {
+    async fn account(
+        self: Arc<Self>,
+        request: Request<QueryAccountRequest>,
+    ) -> Result<Response<QueryAccountResponse>, Status> {
+        let sequence = {
+            let mut w = self.0.lock().unwrap();
+            w.activity += 1;
+            w.celestia_rpcs += 1;
+            w.n_prepare += 1;
+            // every prepared transaction gets its own account sequence, so that every BlobTx the
+            // relayer ever signs is distinct (the real chain bumps it with every included tx)
+            w.acct_seq += 1;
+            w.acct_seq
+        };
+        let account = BaseAccount {
+            address: request.into_inner().address,
+            pub_key: None,
+            account_number: 10,
+            sequence,
+        };
+        let account_as_any = pbjson_types::Any {
+            type_url: BaseAccount::type_url(),
+            value: account.encode_to_vec().into(),
+        };
+        Ok(Response::new(QueryAccountResponse {
+            account: Some(account_as_any),
+        }))
+    }
+
+    async fn params(
+        self: Arc<Self>,
+        _request: Request<QueryAuthParamsRequest>,
+    ) -> Result<Response<QueryAuthParamsResponse>, Status> {
+        self.0.lock().unwrap().activity += 1;
+        Ok(Response::new(QueryAuthParamsResponse {
+            params: Some(AuthParams {
+                max_memo_characters: 256,
+                tx_sig_limit: 7,
+                tx_size_cost_per_byte: 10,
+                sig_verify_cost_ed25519: 590,
+                sig_verify_cost_secp256k1: 1000,
+            }),
+        }))
+    }
+}
+
+#[async_trait::async_trait]
+impl BlobQueryService for CelestiaFake {
+    async fn params(
+        self: Arc<Self>,
+        _request: Request<QueryBlobParamsRequest>,
+    ) -> Result<Response<QueryBlobParamsResponse>, Status> {
+        self.0.lock().unwrap().activity += 1;
+        Ok(Response::new(QueryBlobParamsResponse {
+            params: Some(BlobParams {
+                gas_per_blob_byte: 8,
+                gov_max_square_size: 64,
+            }),
+        }))
+    }
+}
+
+#[async_trait::async_trait]
+impl MinGasPriceService for CelestiaFake {
+    async fn config(
+        self: Arc<Self>,
+        _request: Request<MinGasPriceRequest>,
+    ) -> Result<Response<MinGasPriceResponse>, Status> {
+        self.0.lock().unwrap().activity += 1;
+        Ok(Response::new(MinGasPriceResponse {
+            minimum_gas_price: "0.002000000000000000utia".to_string(),
+        }))
+    }
+}
+
+/// The sequencer heights whose data a BlobTx carries: decoded from the blob in the sequencer
+/// namespace (brotli-compressed `SubmittedMetadataList`), i.e. from what would be stored on
+/// Celestia, not from anything the relayer says about it.
+fn heights_in_blob_tx(blob_tx: &BlobTx) -> Vec<u64> {
+    let mut heights = vec![];
+    for blob in &blob_tx.blobs {
+        let Ok(raw) = astria_core::brotli::decompress_bytes(&blob.data) else {
+            continue;
+        };
+        let Ok(list) = SubmittedMetadataList::decode(&*raw) else {
+            continue;
+        };
+        let mut hs = vec![];
+        let mut all = !list.entries.is_empty();
+        for entry in &list.entries {
+            match entry.header.as_ref() {
+                Some(header) if header.chain_id == SEQUENCER_CHAIN_ID => hs.push(header.height),
+                _ => all = false,
+            }
+        }
+        if all {
+            heights.extend(hs);
+        }
+    }
+    heights
+}
+
+#[async_trait::async_trait]
+impl TxService for CelestiaFake {
+    async fn get_tx(
+        self: Arc<Self>,
+        request: Request<GetTxRequest>,
+    ) -> Result<Response<GetTxResponse>, Status> {
+        let (tx, rx) = oneshot::channel();
+        {
+            let mut w = self.0.lock().unwrap();
+            w.activity += 1;
+            w.celestia_rpcs += 1;
+            let id = w.id_of_hash(&request.into_inner().hash);
+            w.pending.push(Pending {
+                kind: PKind::GetTx(id),
+                responder: Responder::GetTx(tx),
+            });
+        }
+        let res = rx
+            .await
+            .unwrap_or_else(|_| Err(Status::aborted("fake dropped")));
+        self.0.lock().unwrap().activity += 1;
+        res.map(Response::new)
+    }
+
+    async fn broadcast_tx(
+        self: Arc<Self>,
+        request: Request<BroadcastTxRequest>,
+    ) -> Result<Response<BroadcastTxResponse>, Status> {
+        let (tx, rx) = oneshot::channel();
+        {
+            let request = request.into_inner();
+            let blob_tx = BlobTx::decode(request.tx_bytes.as_ref())
+                .map_err(|_| Status::invalid_argument("not a BlobTx"))?;
+            let hash = hex::encode(Sha256::digest(&blob_tx.tx));
+            let heights = heights_in_blob_tx(&blob_tx);
+            let mut w = self.0.lock().unwrap();
+            w.activity += 1;
+            w.celestia_rpcs += 1;
+            let id = w.id_of_hash(&hash);
+            w.txs[(id - 1) as usize].heights = heights;
+            w.pending.push(Pending {
+                kind: PKind::Bcast(id),
+                responder: Responder::Bcast(tx),
+            });
+        }
+        let res = rx
+            .await
+            .unwrap_or_else(|_| Err(Status::aborted("fake dropped")));
+        self.0.lock().unwrap().activity += 1;
+        res.map(Response::new)
+    }
+}
+
+struct SequencerFake(Shared);
+
+#[tonic::async_trait]
+impl SequencerService for SequencerFake {
+    async fn get_sequencer_block(
+        self: Arc<Self>,
+        request: Request<GetSequencerBlockRequest>,
+    ) -> Result<Response<RawSequencerBlock>, Status> {
+        let (tx, rx) = oneshot::channel();
+        {
+            let mut w = self.0.lock().unwrap();
+            w.activity += 1;
+            w.pending.push(Pending {
+                kind: PKind::Fetch(request.into_inner().height),
+                responder: Responder::Fetch(tx),
+            });
+        }
+        let res = rx
+            .await
+            .unwrap_or_else(|_| Err(Status::aborted("fake dropped")));
+        self.0.lock().unwrap().activity += 1;
+        res.map(Response::new)
+    }
+
+    async fn get_filtered_sequencer_block(
+        self: Arc<Self>,
+        _request: Request<GetFilteredSequencerBlockRequest>,
+    ) -> Result<Response<RawFilteredSequencerBlock>, Status> {
+        Err(Status::unimplemented("not used by the relayer"))
+    }
+
+    async fn get_pending_nonce(
+        self: Arc<Self>,
+        _request: Request<GetPendingNonceRequest>,
+    ) -> Result<Response<GetPendingNonceResponse>, Status> {
+        Err(Status::unimplemented("not used by the relayer"))
+    }
+
+    async fn get_upgrades_info(
+        self: Arc<Self>,
+        _request: Request<GetUpgradesInfoRequest>,
+    ) -> Result<Response<GetUpgradesInfoResponse>, Status> {
+        Err(Status::unimplemented("not used by the relayer"))
+    }
+
+    async fn get_validator_name(
+        self: Arc<Self>,
+        _request: Request<GetValidatorNameRequest>,
+    ) -> Result<Response<GetValidatorNameResponse>, Status> {
+        Err(Status::unimplemented("not used by the relayer"))
+    }
+}
+
+fn make_block(height: u64) -> RawSequencerBlock {
+    ConfigureSequencerBlock {
+        block_hash: Some(block::Hash::new([height as u8; 32])),
+        chain_id: Some(SEQUENCER_CHAIN_ID.to_string()),
+        height: height as u32,
+        proposer_address: Some(tendermint::account::Id::try_from(vec![0u8; 20]).unwrap()),
+        sequence_data: vec![(
+            RollupId::from_unhashed_bytes(b"verif_rollup"),
+            format!("block {height}").into_bytes(),
+        )],
+        ..Default::default()
+    }
+    .make()
+    .into_raw()
+}
+
+const STATUS_RESULT: &str = r#"{
+  "node_info": {
+    "protocol_version": { "p2p": "8", "block": "11", "app": "0" },
+    "id": "a1d3bbddb7800c6da2e64169fec281494e963ba3",
+    "listen_addr": "tcp://0.0.0.0:26656",
+    "network": "verif-sequencer",
+    "version": "0.38.6",
+    "channels": "40202122233038606100",
+    "moniker": "fullnode",
+    "other": { "tx_index": "on", "rpc_address": "tcp://0.0.0.0:26657" }
+  },
+  "sync_info": {
+    "latest_block_hash": "A4202E4E367712AC2A797860265A7EBEA8A3ACE513CB0105C2C9058449641202",
+    "latest_app_hash": "BCC9C9B82A49EC37AADA41D32B4FBECD2441563703955413195BDA2236775A68",
+    "latest_block_height": "452605",
+    "latest_block_time": "2024-05-09T15:59:17.849713071Z",
+    "earliest_block_hash": "C34B7B0B82423554B844F444044D7D08A026D6E413E6F72848DB2F8C77ACE165",
+    "earliest_app_hash": "6B776065775471CEF46AC75DE09A4B869A0E0EB1D7725A04A342C0E46C16F472",
+    "earliest_block_height": "1",
+    "earliest_block_time": "2024-04-23T00:49:11.964127Z",
+    "catching_up": false
+  },
+  "validator_info": {
+    "address": "0B46F33BA2FA5C2E2AD4C4C4E5ECE3F1CA03D195",
+    "pub_key": { "type": "tendermint/PubKeyEd25519", "value": "bA6GipHUijVuiYhv+4XymdePBsn8EeTqjGqNQrBGZ4I=" },
+    "voting_power": "0"
+  }
+}"#;
+
+/// CometBFT JSON-RPC: `status` (chain id) and `abci_info` (latest height), answered at once.
+async fn cometbft_handler(
+    axum::extract::State(shared): axum::extract::State<Shared>,
+    body: String,
+) -> axum::response::Response {
+    use axum::response::IntoResponse as _;
+    let req: serde_json::Value = serde_json::from_str(&body).unwrap_or(serde_json::Value::Null);
+    let id = req.get("id").cloned().unwrap_or(serde_json::Value::Null);
+    let method = req.get("method").and_then(|m| m.as_str()).unwrap_or("");
+    let result: serde_json::Value = match method {
+        "status" => serde_json::from_str(STATUS_RESULT).unwrap(),
+        "abci_info" => {
+            let latest = {
+                let mut w = shared.lock().unwrap();
+                w.activity += 1;
+                w.latest
+            };
+            use tendermint::{
+                abci,
+                hash::AppHash,
+            };
+            let resp = tendermint_rpc::endpoint::abci_info::Response {
+                response: abci::response::Info {
+                    data: "verif".into(),
+                    version: "1.0.0".into(),
+                    app_version: 1,
+                    last_block_height: u32::try_from(latest).unwrap().into(),
+                    last_block_app_hash: AppHash::try_from([0; 32].to_vec()).unwrap(),
+                },
+            };
+            serde_json::to_value(resp).unwrap()
+        }
+        _ => serde_json::Value::Null,
+    };
+    shared.lock().unwrap().activity += 1;
+    let body = serde_json::json!({ "jsonrpc": "2.0", "id": id, "result": result });
+    (
+        [(http::header::CONTENT_TYPE, "application/json")],
+        body.to_string(),
+    )
+        .into_response()
+}
+
+// ---------------------------------------------------------------------------------------------
+// one relayer process = one tokio runtime
+// ---------------------------------------------------------------------------------------------
+
+struct Session {
+    rt: tokio::runtime::Runtime,
+    idle: Arc<Notify>,
+    parks: Arc<AtomicU64>,
+    gate: std::sync::mpsc::Sender<()>,
+    relayer: tokio::task::JoinHandle<astria_eyre::eyre::Result<()>>,
+    state_rx: tokio::sync::watch::Receiver<super::StateSnapshot>,
+    dir: PathBuf,
+}
+
+/// Accepted connections get TCP_NODELAY: without it Nagle + delayed ACK hold back the second
+/// small write of a response for ~40 ms of wall-clock time, which the (virtual-time) controller
+/// would mistake for quiescence.
+fn nodelay_incoming(
+    listener: tokio::net::TcpListener,
+) -> impl tokio_stream::Stream<Item = std::io::Result<tokio::net::TcpStream>> {
+    use tokio_stream::StreamExt as _;
+    tokio_stream::wrappers::TcpListenerStream::new(listener).map(|res| {
+        res.map(|stream| {
+            let _ = stream.set_nodelay(true);
+            stream
+        })
+    })
+}
+
+fn metrics() -> &'static crate::metrics::Metrics {
+    static M: std::sync::OnceLock<&'static crate::metrics::Metrics> = std::sync::OnceLock::new();
+    M.get_or_init(|| Box::leak(Box::new(crate::metrics::Metrics::noop_metrics(&()).unwrap())))
+}
+
+async fn wait_idle(idle: &Notify, parks: &AtomicU64) {
+    let p0 = parks.load(Ordering::SeqCst);
+    loop {
+        idle.notified().await;
+        if parks.load(Ordering::SeqCst) > p0 {
+            return;
+        }
+    }
+}
+
+/// Runs the runtime until nothing moves any more: every task idle, and QUIET_ROUNDS I/O polls
+/// in a row during which no fake saw a request, finished a response, and nothing was woken.
+async fn pump(shared: &Shared, idle: &Notify, parks: &AtomicU64) {
+    let mut quiet = 0;
+    while quiet < QUIET_ROUNDS {
+        let a0 = {
+            let mut w = shared.lock().unwrap();
+            // requests whose client went away (timeout, crash)
+            w.pending.retain(|p| !p.responder.is_closed());
+            w.activity
+        };
+        wait_idle(idle, parks).await;
+        tokio::task::yield_now().await;
+        wait_idle(idle, parks).await;
+        let a1 = shared.lock().unwrap().activity;
+        if a0 == a1 {
+            quiet += 1;
+        } else {
+            quiet = 0;
+        }
+    }
+    let mut w = shared.lock().unwrap();
+    w.pending.retain(|p| !p.responder.is_closed());
+}
+
+impl Session {
+    fn start(shared: &Shared, root: &PathBuf, sess_no: u64, keyfile: &PathBuf) -> Session {
+        let dir = root.join(format!("s{sess_no}"));
+        std::fs::create_dir_all(&dir).unwrap();
+        {
+            let w = shared.lock().unwrap();
+            if let Some(bytes) = &w.file {
+                std::fs::write(dir.join("state.json"), bytes).unwrap();
+            }
+            if let Some(bytes) = &w.tmp {
+                std::fs::write(dir.join("state.json.tmp"), bytes).unwrap();
+            }
+        }
+        let idle = Arc::new(Notify::new());
+        let parks = Arc::new(AtomicU64::new(0));
+        let rt = {
+            let idle = idle.clone();
+            let parks = parks.clone();
+            tokio::runtime::Builder::new_current_thread()
+                .enable_all()
+                .start_paused(true)
+                .max_blocking_threads(1)
+                .on_thread_park(move || {
+                    parks.fetch_add(1, Ordering::SeqCst);
+                    idle.notify_one();
+                })
+                .build()
+                .unwrap()
+        };
+        // the gate: occupies the only blocking thread; every fs operation of the relayer queues
+        // behind it and is let through one at a time by `fs_step`
+        let (gate, gate_rx) = std::sync::mpsc::channel::<()>();
+        let (started_tx, started_rx) = std::sync::mpsc::channel::<()>();
+        drop(rt.spawn_blocking(move || {
+            let _ = started_tx.send(());
+            let _ = gate_rx.recv();
+        }));
+        started_rx.recv().unwrap();
+
+        let (relayer, state_rx) = rt.block_on(async {
+            let celestia = tokio::net::TcpListener::bind("127.0.0.1:0").await.unwrap();
+            let celestia_addr = celestia.local_addr().unwrap();
+            let sequencer = tokio::net::TcpListener::bind("127.0.0.1:0").await.unwrap();
+            let sequencer_addr = sequencer.local_addr().unwrap();
+            let cometbft = tokio::net::TcpListener::bind("127.0.0.1:0").await.unwrap();
+            let cometbft_addr = cometbft.local_addr().unwrap();
+            {
+                let fake = CelestiaFake(shared.clone());
+                tokio::spawn(async move {
+                    let _ = Server::builder()
+                        .add_service(NodeInfoServer::new(fake.clone()))
+                        .add_service(AuthQueryServer::new(fake.clone()))
+                        .add_service(BlobQueryServer::new(fake.clone()))
+                        .add_service(MinGasPriceServer::new(fake.clone()))
+                        .add_service(TxServer::new(fake))
+                        .serve_with_incoming(nodelay_incoming(celestia))
+                        .await;
+                });
+            }
+            {
+                let fake = SequencerFake(shared.clone());
+                tokio::spawn(async move {
+                    let _ = Server::builder()
+                        .add_service(SequencerServiceServer::new(fake))
+                        .serve_with_incoming(nodelay_incoming(sequencer))
+                        .await;
+                });
+            }
+            {
+                let app = axum::Router::new()
+                    .route("/", axum::routing::post(cometbft_handler))
+                    .with_state(shared.clone());
+                tokio::spawn(async move {
+                    let _ = axum::serve(cometbft, app).tcp_nodelay(true).await;
+                });
+            }
+            let relayer = super::Builder {
+                relayer_shutdown_token: tokio_util::sync::CancellationToken::new(),
+                sequencer_chain_id: SEQUENCER_CHAIN_ID.to_string(),
+                celestia_chain_id: CELESTIA_CHAIN_ID.to_string(),
+                celestia_default_min_gas_price: 0.002,
+                celestia_app_grpc_endpoint: format!("http://{celestia_addr}"),
+                celestia_app_key_file: keyfile.to_string_lossy().to_string(),
+                cometbft_endpoint: format!("http://{cometbft_addr}"),
+                sequencer_poll_period: Duration::from_secs(1),
+                sequencer_grpc_endpoint: format!("http://{sequencer_addr}"),
+                rollup_filter: crate::IncludeRollup::parse("").unwrap(),
+                submission_state_path: dir.join("state.json"),
+                metrics: metrics(),
+            }
+            .build()
+            .unwrap();
+            let state_rx = relayer.subscribe_to_state();
+            (tokio::spawn(relayer.run()), state_rx)
+        });
+        let s = Session {
+            rt,
+            idle,
+            parks,
+            gate,
+            relayer,
+            state_rx,
+            dir,
+        };
+        s.pump(shared);
+        s
+    }
+
+    fn pump(&self, shared: &Shared) {
+        self.rt.block_on(pump(shared, &self.idle, &self.parks));
+    }
+
+    /// Lets exactly one queued blocking operation (if any) run to completion.
+    fn fs_step(&mut self, shared: &Shared) {
+        let (gate, gate_rx) = std::sync::mpsc::channel::<()>();
+        let (started_tx, started_rx) = std::sync::mpsc::channel::<()>();
+        drop(self.rt.spawn_blocking(move || {
+            let _ = started_tx.send(());
+            let _ = gate_rx.recv();
+        }));
+        let old = std::mem::replace(&mut self.gate, gate);
+        let _ = old.send(());
+        started_rx.recv().unwrap();
+        self.pump(shared);
+    }
+
+    fn tick(&self, shared: &Shared) {
+        self.rt.block_on(async {
+            tokio::time::advance(Duration::from_secs(1)).await;
+            pump(shared, &self.idle, &self.parks).await;
+        });
+    }
+
+    fn read_disk(&self) -> (Option<Vec<u8>>, Option<Vec<u8>>) {
+        (
+            std::fs::read(self.dir.join("state.json")).ok(),
+            std::fs::read(self.dir.join("state.json.tmp")).ok(),
+        )
+    }
+
+    /// The process dies: nothing of it runs any more.  The queued blocking operation (if any)
+    /// is never executed against the state directory: the directory is snapshotted and removed
+    /// before the gate thread is released.
+    fn kill(self, shared: &Shared) {
+        let (file, tmp) = self.read_disk();
+        {
+            let mut w = shared.lock().unwrap();
+            w.file = file;
+            w.tmp = tmp;
+            w.pending.clear();
+            w.graveyard.clear();
+        }
+        let Session {
+            rt,
+            gate,
+            dir,
+            ..
+        } = self;
+        rt.shutdown_background();
+        let _ = std::fs::remove_dir_all(&dir);
+        drop(gate);
+    }
+}
+
+// ---------------------------------------------------------------------------------------------
+// controller
+// ---------------------------------------------------------------------------------------------
+
+struct Harness {
+    shared: Shared,
+    session: Option<Session>,
+    root: PathBuf,
+    keyfile: PathBuf,
+    sess_no: u64,
+}
+
+fn fmt_state(w: &mut World, bytes: &Option<Vec<u8>>) -> String {
+    let Some(bytes) = bytes else {
+        return "-".to_string();
+    };
+    let Ok(v) = serde_json::from_slice::<serde_json::Value>(bytes) else {
+        return "bad".to_string();
+    };
+    let sub = |v: &serde_json::Value| -> Option<(u64, u64)> {
+        Some((
+            v.get("celestia_height")?.as_u64()?,
+            v.get("sequencer_height")?.as_u64()?,
+        ))
+    };
+    let parsed = (|| -> Option<String> {
+        match v.get("state")?.as_str()? {
+            "fresh" => Some("fresh".to_string()),
+            "started" => {
+                let (c, s) = sub(v.get("last_submission")?)?;
+                Some(format!("started:{c}:{s}"))
+            }
+            "prepared" => {
+                let (c, s) = sub(v.get("last_submission")?)?;
+                let h = v.get("sequencer_height")?.as_u64()?;
+                let hash = v.get("blob_tx_hash")?.as_str()?;
+                v.get("at")?.as_str()?;
+                if hash.len() != 64 || !hash.bytes().all(|b| b.is_ascii_hexdigit()) {
+                    return None;
+                }
+                let id = w.id_of_hash(hash);
+                Some(format!("prepared:{h}:{c}:{s}:t{id}"))
+            }
+            _ => None,
+        }
+    })();
+    parsed.unwrap_or_else(|| "bad".to_string())
+}
+
+impl Harness {
+    fn dump(&mut self) -> String {
+        let (file, tmp) = match &self.session {
+            Some(s) => s.read_disk(),
+            None => {
+                let w = self.shared.lock().unwrap();
+                (w.file.clone(), w.tmp.clone())
+            }
+        };
+        let status = match &self.session {
+            Some(s) => {
+                let snap = *s.state_rx.borrow();
+                let v = serde_json::to_value(snap).unwrap();
+                let f = |k: &str| match v.get(k).and_then(|x| x.as_u64()) {
+                    Some(n) => n.to_string(),
+                    None => "-".to_string(),
+                };
+                format!(
+                    "up obs={} req={} fet={} cc={}",
+                    f("latest_observed_sequencer_height"),
+                    f("latest_requested_sequencer_height"),
+                    f("latest_fetched_sequencer_height"),
+                    f("latest_confirmed_celestia_height")
+                )
+            }
+            None => "down".to_string(),
+        };
+        let mut w = self.shared.lock().unwrap();
+        // temp first: a prepared state shows up there first
+        let tmp_s = fmt_state(&mut w, &tmp);
+        let file_s = match &file {
+            None => "missing".to_string(),
+            some => fmt_state(&mut w, some),
+        };
+        let mut pend: Vec<PKind> = w.pending.iter().map(|p| p.kind).collect();
+        pend.sort();
+        let pend: Vec<String> = pend
+            .iter()
+            .map(|k| match k {
+                PKind::Fetch(h) => format!("fetch:{h}"),
+                PKind::Bcast(id) => format!("bcast:{}", w.fmt_tx(*id)),
+                PKind::GetTx(id) => format!("gettx:t{id}"),
+            })
+            .collect();
+        let mem: Vec<String> = w.mempool.iter().map(|id| w.fmt_tx(*id)).collect();
+        let chain: Vec<String> = w
+            .chain
+            .iter()
+            .map(|(h, id)| format!("{h}:{}", w.fmt_tx(*id)))
+            .collect();
+        let j = |v: Vec<String>| {
+            if v.is_empty() {
+                "-".to_string()
+            } else {
+                v.join(",")
+            }
+        };
+        format!(
+            "file={file_s} tmp={tmp_s} pend={} mem={} chain={} latest={} np={} proc={status}",
+            j(pend),
+            j(mem),
+            j(chain),
+            w.latest,
+            w.n_prepare
+        )
+    }
+
+    /// after an in-session step: did the relayer process end by itself?
+    fn check_exit(&mut self) -> Option<String> {
+        let finished = self.session.as_ref().map_or(false, |s| s.relayer.is_finished());
+        if !finished {
+            return None;
+        }
+        let mut s = self.session.take().unwrap();
+        let res = s.rt.block_on(&mut s.relayer);
+        let kind = match res {
+            Ok(Ok(())) => "clean".to_string(),
+            Ok(Err(e)) => {
+                let msg = format!("{e:#}");
+                if msg.contains("failed reading submission state file")
+                    || msg.contains("failed parsing the contents")
+                    || msg.contains("should be greater than last successful submission")
+                {
+                    "unreadable".to_string()
+                } else if msg.contains("failed writing just-read submission state") {
+                    "unwritable".to_string()
+                } else if msg.contains("Celestia submission task returned") {
+                    "submitter".to_string()
+                } else {
+                    "other".to_string()
+                }
+            }
+            Err(_) => "panic".to_string(),
+        };
+        s.kill(&self.shared);
+        Some(format!("exit:{kind}"))
+    }
+
+    fn celestia_pending(&self) -> bool {
+        let w = self.shared.lock().unwrap();
+        w.pending
+            .iter()
+            .any(|p| matches!(p.kind, PKind::Bcast(_) | PKind::GetTx(_)))
+    }
+
+    fn take_pending(&self, pred: impl Fn(&PKind) -> bool) -> Option<Pending> {
+        let mut w = self.shared.lock().unwrap();
+        let i = w.pending.iter().position(|p| pred(&p.kind))?;
+        Some(w.pending.remove(i))
+    }
+
+    fn with_exit(&mut self, res: &str) -> String {
+        match self.check_exit() {
+            Some(e) => format!("{res} {e}"),
+            None => res.to_string(),
+        }
+    }
+
+    fn answer_gettx(&self, p: Pending, mode: &str) -> &'static str {
+        let PKind::GetTx(id) = p.kind else {
+            unreachable!()
+        };
+        let Responder::GetTx(tx) = p.responder else {
+            unreachable!()
+        };
+        let (conf, hash) = {
+            let w = self.shared.lock().unwrap();
+            (w.confirmed_at(id), w.txs[(id - 1) as usize].hash.to_ascii_uppercase())
+        };
+        let ok = |height: i64| {
+            Ok(GetTxResponse {
+                tx: None,
+                tx_response: Some(TxResponse {
+                    height,
+                    txhash: hash.clone(),
+                    code: 0,
+                    ..TxResponse::default()
+                }),
+            })
+        };
+        let (resp, what) = match (mode, conf) {
+            ("err", _) => (Err(Status::internal("verif: transient failure")), "error"),
+            (_, Some(h)) => (ok(h as i64), "confirmed"),
+            ("h0", None) => (ok(0), "pending"),
+            (_, None) => (Err(Status::not_found("tx not found")), "unknown"),
+        };
+        let _ = tx.send(resp);
+        what
+    }
+
+    fn exec(&mut self, op: &str) -> String {
+        let t: Vec<&str> = op.split(' ').collect();
+        match t[0] {
+            "reset" => {
+                if let Some(s) = self.session.take() {
+                    s.kill(&self.shared);
+                }
+                let base: u64 = t[1].parse().unwrap();
+                *self.shared.lock().unwrap() = World::new(base);
+                "ok".to_string()
+            }
+            "bump" => {
+                self.shared.lock().unwrap().latest += t[1].parse::<u64>().unwrap();
+                "ok".to_string()
+            }
+            "include" | "drop" => {
+                let id: u64 = t[1].trim_start_matches('t').parse().unwrap();
+                let mut w = self.shared.lock().unwrap();
+                let Some(i) = w.mempool.iter().position(|x| *x == id) else {
+                    return "err:not-in-mempool".to_string();
+                };
+                w.mempool.remove(i);
+                if t[0] == "include" {
+                    w.cheight += 1;
+                    let h = w.cheight;
+                    w.chain.push((h, id));
+                }
+                "ok".to_string()
+            }
+            "corrupttmp" | "tamper" => {
+                if self.session.is_some() {
+                    return "err:up".to_string();
+                }
+                let mut w = self.shared.lock().unwrap();
+                if t[0] == "tamper" && t[1] == "restore" && w.saved_file.is_none() {
+                    return "err:nosave".to_string();
+                }
+                let cur = if t[0] == "tamper" { w.file.clone() } else { w.tmp.clone() };
+                let file_now = w.file.clone();
+                let new: Option<Vec<u8>> = match t[1] {
+                    "none" => None,
+                    "garbage" => Some(b"\x00\x01{{{ not json".to_vec()),
+                    "empty" => Some(vec![]),
+                    // a prefix of what is (or, for the temp file, would be) written
+                    "trunc" => {
+                        let src = cur.or(file_now).unwrap_or_default();
+                        let pct: usize = t[2].parse().unwrap();
+                        let n = (src.len().saturating_sub(1)) * pct / 100;
+                        Some(src[..n.min(src.len())].to_vec())
+                    }
+                    // a complete, well-formed `started` state claiming far more than was ever
+                    // confirmed: must never be promoted to the state file
+                    "stale" => Some(
+                        br#"{"state":"started","last_submission":{"celestia_height":9,"sequencer_height":1000000}}"#
+                            .to_vec(),
+                    ),
+                    // well-formed JSON that violates the read-time sanity check
+                    "badprep" => Some(
+                        br#"{"state":"prepared","sequencer_height":3,"last_submission":{"celestia_height":9,"sequencer_height":3},"blob_tx_hash":"0909090909090909090909090909090909090909090909090909090909090909","at":"2024-06-24T22:22:22.222222222Z"}"#
+                            .to_vec(),
+                    ),
+                    "unknownstate" => Some(br#"{"state":"submitted"}"#.to_vec()),
+                    "restore" => w.saved_file.clone().unwrap(),
+                    _ => panic!("unknown corruption {op}"),
+                };
+                if t[0] == "tamper" {
+                    if t[1] != "restore" && w.saved_file.is_none() {
+                        w.saved_file = Some(w.file.clone());
+                    }
+                    if t[1] == "restore" {
+                        w.saved_file = None;
+                    }
+                    w.file = new;
+                } else {
+                    w.tmp = new;
+                }
+                "ok".to_string()
+            }
+            "restart" => {
+                if self.session.is_some() {
+                    return "err:up".to_string();
+                }
+                if t.get(1) == Some(&"aged") {
+                    // the process was down for a long time: the `at` stamp of a prepared state
+                    // is old, so the startup confirmation only polls for the 15 s minimum
+                    let mut w = self.shared.lock().unwrap();
+                    if let Some(bytes) = &w.file {
+                        if let Ok(mut v) = serde_json::from_slice::<serde_json::Value>(bytes) {
+                            if v.get("at").is_some() {
+                                v["at"] = serde_json::Value::String("2020-01-01T00:00:00Z".into());
+                                w.file = Some(serde_json::to_vec_pretty(&v).unwrap());
+                            }
+                        }
+                    }
+                }
+                self.sess_no += 1;
+                let s = Session::start(&self.shared, &self.root, self.sess_no, &self.keyfile);
+                self.session = Some(s);
+                self.with_exit("ok")
+            }
+            "crash" => match self.session.take() {
+                Some(s) => {
+                    s.kill(&self.shared);
+                    "ok".to_string()
+                }
+                None => "err:down".to_string(),
+            },
+            _ if self.session.is_none() => "err:down".to_string(),
+            "fs" => {
+                self.session.as_mut().unwrap().fs_step(&self.shared);
+                self.with_exit("ok")
+            }
+            "fetch" => {
+                let Some(p) = self.take_pending(|k| matches!(k, PKind::Fetch(_))) else {
+                    return "err:none".to_string();
+                };
+                let PKind::Fetch(h) = p.kind else {
+                    unreachable!()
+                };
+                let Responder::Fetch(tx) = p.responder else {
+                    unreachable!()
+                };
+                let _ = tx.send(Ok(make_block(h)));
+                self.session.as_ref().unwrap().pump(&self.shared);
+                self.with_exit("ok")
+            }
+            "bcast" => {
+                let Some(p) = self.take_pending(|k| matches!(k, PKind::Bcast(_))) else {
+                    return "err:none".to_string();
+                };
+                let PKind::Bcast(id) = p.kind else {
+                    unreachable!()
+                };
+                let hash = self.shared.lock().unwrap().txs[(id - 1) as usize]
+                    .hash
+                    .to_ascii_uppercase();
+                let resp = |code: u32, log: &str| {
+                    Ok(BroadcastTxResponse {
+                        tx_response: Some(TxResponse {
+                            txhash: hash.clone(),
+                            code,
+                            raw_log: log.to_string(),
+                            ..TxResponse::default()
+                        }),
+                    })
+                };
+                let mode = t[1];
+                if mode == "timeout-acc" || mode == "timeout-noacc" {
+                    {
+                        let mut w = self.shared.lock().unwrap();
+                        if mode == "timeout-acc" {
+                            w.mempool.push(id);
+                        }
+                        w.graveyard.push(p);
+                    }
+                    // the request is never answered: the 5 s gRPC timeout expires, the attempt
+                    // fails, the retry first tries to confirm the timed-out transaction
+                    let c0 = self.shared.lock().unwrap().celestia_rpcs;
+                    let mut res = "err:stuck";
+                    for _ in 0..16 {
+                        self.session.as_ref().unwrap().tick(&self.shared);
+                        if self.shared.lock().unwrap().celestia_rpcs != c0 {
+                            res = "ok";
+                            break;
+                        }
+                    }
+                    return self.with_exit(res);
+                }
+                let Responder::Bcast(tx) = p.responder else {
+                    unreachable!()
+                };
+                let answer = match mode {
+                    "ok" => {
+                        self.shared.lock().unwrap().mempool.push(id);
+                        resp(0, "")
+                    }
+                    // accepted by the node we talk to, then evicted before it is ever included
+                    "lost" => resp(0, ""),
+                    "code13" => resp(
+                        13,
+                        "insufficient fees; got: 1utia required: 123456utia: insufficient fee",
+                    ),
+                    "code5" => resp(5, "some other failure"),
+                    "unavail" => Err(Status::unavailable("verif: node unavailable")),
+                    "empty" => Ok(BroadcastTxResponse {
+                        tx_response: None,
+                    }),
+                    _ => panic!("unknown bcast outcome {op}"),
+                };
+                let _ = tx.send(answer);
+                self.session.as_ref().unwrap().pump(&self.shared);
+                self.with_exit("ok")
+            }
+            "gettx" => {
+                let Some(p) = self.take_pending(|k| matches!(k, PKind::GetTx(_))) else {
+                    return "err:none".to_string();
+                };
+                let what = self.answer_gettx(p, t[1]);
+                self.session.as_ref().unwrap().pump(&self.shared);
+                self.with_exit(what)
+            }
+            "giveup" => {
+                // answer "unknown" until the relayer stops asking (only a timed confirmation does)
+                let id = {
+                    let w = self.shared.lock().unwrap();
+                    w.pending.iter().find_map(|p| match p.kind {
+                        PKind::GetTx(id) => Some(id),
+                        _ => None,
+                    })
+                };
+                let Some(id) = id else {
+                    return "err:none".to_string();
+                };
+                if self.shared.lock().unwrap().confirmed_at(id).is_some() {
+                    return "err:confirmed".to_string();
+                }
+                let mut res = "stuck";
+                for _ in 0..64 {
+                    let Some(p) = self.take_pending(|k| *k == PKind::GetTx(id)) else {
+                        res = "ok";
+                        break;
+                    };
+                    self.answer_gettx(p, "truth");
+                    self.session.as_ref().unwrap().pump(&self.shared);
+                    if self.session.as_ref().unwrap().relayer.is_finished() {
+                        break;
+                    }
+                    self.session.as_ref().unwrap().tick(&self.shared);
+                }
+                self.with_exit(res)
+            }
+            "wait" => {
+                if self.celestia_pending() {
+                    return "err:busy".to_string();
+                }
+                let c0 = self.shared.lock().unwrap().celestia_rpcs;
+                let mut res = "idle";
+                for _ in 0..16 {
+                    self.session.as_ref().unwrap().tick(&self.shared);
+                    if self.shared.lock().unwrap().celestia_rpcs != c0 {
+                        res = "ok";
+                        break;
+                    }
+                    if self.session.as_ref().unwrap().relayer.is_finished() {
+                        break;
+                    }
+                }
+                self.with_exit(res)
+            }
+            _ => panic!("unknown op {op}"),
+        }
+    }
+}
+
+// ---------------------------------------------------------------------------------------------
+// generation: systematic (every crash point x every outcome of the in-flight BlobTx along a
+// canonical run) + seeded random controller
+// ---------------------------------------------------------------------------------------------
+
+#[derive(Default, Clone)]
+struct Obs {
+    up: bool,
+    fetch: Option<u64>,
+    bcast: Option<u64>,
+    gettx: Option<u64>,
+    mempool: Vec<u64>,
+    chain_len: usize,
+    latest: u64,
+    file: String,
+}
+
+impl Harness {
+    fn obs(&mut self) -> Obs {
+        let dump = self.dump();
+        let file = dump
+            .split(' ')
+            .find_map(|w| w.strip_prefix("file="))
+            .unwrap_or("")
+            .to_string();
+        let w = self.shared.lock().unwrap();
+        let mut o = Obs {
+            up: self.session.is_some(),
+            mempool: w.mempool.clone(),
+            chain_len: w.chain.len(),
+            latest: w.latest,
+            file,
+            ..Obs::default()
+        };
+        for p in &w.pending {
+            match p.kind {
+                PKind::Fetch(h) => o.fetch = Some(h),
+                PKind::Bcast(t) => o.bcast = Some(t),
+                PKind::GetTx(t) => o.gettx = Some(t),
+            }
+        }
+        o
+    }
+
+    fn confirmed(&self, t: u64) -> bool {
+        self.shared.lock().unwrap().confirmed_at(t).is_some()
+    }
+}
+
+/// executes ops, writes the trace, tracks when a blocking fs operation may be queued
+struct Runner {
+    h: Harness,
+    trace: Trace,
+    fs_todo: u32,
+    last_res: String,
+    last_dump: String,
+    ops: u64,
+}
+
+impl Runner {
+    fn run(&mut self, op: &str) -> String {
+        let op = op.strip_prefix("crash ").unwrap_or(op).to_string();
+        let res = self.h.exec(&op);
+        let dump = self.h.dump();
+        self.trace.line(&format!("crash {op} => {res} | {dump}"));
+        self.ops += 1;
+        let word = op.split(' ').next().unwrap();
+        if !self.h.session.is_some() {
+            self.fs_todo = 0;
+        } else if word == "restart" {
+            self.fs_todo = 3;
+        } else if word == "fs" {
+            self.fs_todo = if dump != self.last_dump {
+                self.fs_todo.saturating_sub(1).max(1)
+            } else {
+                self.fs_todo.saturating_sub(1)
+            };
+        } else if !res.starts_with("err")
+            && (matches!(word, "fetch" | "gettx" | "giveup") || (word == "wait" && res.starts_with("idle")))
+            || (word == "wait" && self.fs_todo == 0 && dump != self.last_dump)
+        {
+            // steps after which the relayer may have queued a state-file write (a `wait` that
+            // found nothing to wait for is followed by one probe: the controller cannot see
+            // the blocking queue)
+            self.fs_todo = self.fs_todo.max(1);
+        }
+        self.last_dump = dump;
+        self.last_res = res.clone();
+        res
+    }
+}
+
+#[derive(Clone, Copy, PartialEq, Eq, Debug)]
+enum Outcome {
+    /// the in-flight transaction never makes it (evicted)
+    Lost,
+    /// it is included while the relayer is down
+    ConfirmedWhileDown,
+    /// it is still pending at the first poll after the restart, included afterwards
+    PendingThenConfirmed,
+    /// it is not included before the relayer gives up on it, and is included late, after the
+    /// relayer has resubmitted the same heights (duplicates)
+    TimedOutThenLate,
+}
+
+/// a deterministic environment that lets the relayer make progress
+struct Auto {
+    eager_fetch: bool,
+    /// txs that must not be included before the chain has grown beyond `hold_until`
+    hold: Vec<u64>,
+    hold_until: usize,
+    pending_once: bool,
+    steps: u32,
+}
+
+impl Auto {
+    fn new(eager_fetch: bool) -> Self {
+        Auto {
+            eager_fetch,
+            hold: vec![],
+            hold_until: 0,
+            pending_once: false,
+            steps: 0,
+        }
+    }
+
+    fn next(&mut self, r: &mut Runner) -> Option<String> {
+        self.steps += 1;
+        if self.steps > 600 {
+            return None;
+        }
+        let o = r.h.obs();
+        if !o.up {
+            return Some("restart aged".to_string());
+        }
+        if r.last_res.starts_with("stuck") {
+            // an untimed confirmation of a transaction that will not come: only a restart helps
+            return Some("crash".to_string());
+        }
+        if r.fs_todo > 0 {
+            return Some("fs".to_string());
+        }
+        if !self.hold.is_empty() && o.chain_len > self.hold_until {
+            let t = self.hold.remove(0);
+            if o.mempool.contains(&t) {
+                return Some(format!("include t{t}"));
+            }
+        }
+        if self.eager_fetch && o.fetch.is_some() {
+            return Some("fetch".to_string());
+        }
+        if o.bcast.is_some() {
+            return Some("bcast ok".to_string());
+        }
+        if let Some(t) = o.gettx {
+            if r.h.confirmed(t) {
+                return Some("gettx truth".to_string());
+            }
+            if o.mempool.contains(&t) {
+                if self.hold.contains(&t) {
+                    return Some("giveup".to_string());
+                }
+                if self.pending_once {
+                    self.pending_once = false;
+                    return Some("gettx h0".to_string());
+                }
+                return Some(format!("include t{t}"));
+            }
+            return Some("giveup".to_string());
+        }
+        if o.fetch.is_some() {
+            return Some("fetch".to_string());
+        }
+        let done = o.file.starts_with("started:")
+            && o.file.ends_with(&format!(":{}", o.latest))
+            && o.mempool.iter().all(|t| self.hold.contains(t));
+        if done {
+            // late inclusions that never got their chance
+            if let Some(t) = self.hold.pop() {
+                if o.mempool.contains(&t) {
+                    return Some(format!("include t{t}"));
+                }
+            }
+            return None;
+        }
+        Some("wait".to_string())
+    }
+
+    fn drive(&mut self, r: &mut Runner) {
+        while let Some(op) = self.next(r) {
+            r.run(&op);
+        }
+    }
+}
+
+/// the canonical run: `blocks` sequencer blocks relayed without any fault
+fn canonical(r: &mut Runner, base: u64, blocks: u64, eager: bool) -> Vec<String> {
+    let first = r.trace.lines;
+    let _ = first;
+    let mut ops = vec![format!("reset {base}"), format!("bump {blocks}")];
+    for op in ops.clone() {
+        r.run(&op);
+    }
+    let mut auto = Auto::new(eager);
+    while let Some(op) = auto.next(r) {
+        r.run(&op);
+        ops.push(op);
+    }
+    ops
+}
+
+fn after_crash(r: &mut Runner, outcome: Outcome, eager: bool) {
+    let o = r.h.obs();
+    let mut auto = Auto::new(eager);
+    match outcome {
+        Outcome::Lost => {
+            for t in &o.mempool {
+                r.run(&format!("drop t{t}"));
+            }
+        }
+        Outcome::ConfirmedWhileDown => {
+            for t in &o.mempool {
+                r.run(&format!("include t{t}"));
+            }
+        }
+        Outcome::PendingThenConfirmed => auto.pending_once = true,
+        Outcome::TimedOutThenLate => {
+            auto.hold = o.mempool.clone();
+            auto.hold_until = o.chain_len;
+        }
+    }
+    auto.drive(r);
+}
+
+const OUTCOMES: [Outcome; 4] = [
+    Outcome::Lost,
+    Outcome::ConfirmedWhileDown,
+    Outcome::PendingThenConfirmed,
+    Outcome::TimedOutThenLate,
+];
+
+/// every single crash point of the canonical run x every outcome of the in-flight BlobTx
+fn single_crashes(r: &mut Runner, base: u64, blocks: u64, eager: bool, stride: usize) {
+    let ops = canonical(r, base, blocks, eager);
+    let mut k = 3;
+    while k <= ops.len() {
+        let mut outcomes_done = 0;
+        for outcome in OUTCOMES {
+            for op in &ops[..k] {
+                r.run(op);
+            }
+            if r.h.session.is_none() {
+                break;
+            }
+            let in_flight = !r.h.obs().mempool.is_empty();
+            if !in_flight && outcomes_done > 0 {
+                break;
+            }
+            r.run("crash");
+            after_crash(r, outcome, eager);
+            outcomes_done += 1;
+        }
+        k += stride;
+    }
+}
+
+/// two crash points: the second one `gap` controller steps into the recovery from the first
+fn double_crashes(r: &mut Runner, blocks: u64, eager: bool, stride: usize, gaps: &[u32]) {
+    let ops = canonical(r, 0, blocks, eager);
+    let outcomes = [
+        Outcome::Lost,
+        Outcome::ConfirmedWhileDown,
+        Outcome::TimedOutThenLate,
+    ];
+    let mut k = 3;
+    let mut n = 0usize;
+    while k <= ops.len() {
+        for gap in gaps {
+            let o1 = outcomes[n % 3];
+            let o2 = outcomes[(n / 3 + 1) % 3];
+            n += 1;
+            for op in &ops[..k] {
+                r.run(op);
+            }
+            if r.h.session.is_none() {
+                continue;
+            }
+            r.run("crash");
+            // recovery from the first crash, interrupted after `gap` steps
+            let o = r.h.obs();
+            let mut auto = Auto::new(eager);
+            match o1 {
+                Outcome::Lost => {
+                    for t in &o.mempool {
+                        r.run(&format!("drop t{t}"));
+                    }
+                }
+                Outcome::ConfirmedWhileDown => {
+                    for t in &o.mempool {
+                        r.run(&format!("include t{t}"));
+                    }
+                }
+                _ => {
+                    auto.hold = o.mempool.clone();
+                    auto.hold_until = o.chain_len;
+                }
+            }
+            for _ in 0..*gap {
+                match auto.next(r) {
+                    Some(op) => {
+                        r.run(&op);
+                    }
+                    None => break,
+                }
+            }
+            if r.h.session.is_some() {
+                r.run("crash");
+            }
+            after_crash(r, o2, eager);
+        }
+        k += stride;
+    }
+}
+
+/// the adversarial file scenarios: left-over / garbage / truncated temp file, truncated /
+/// garbage / missing / semantically invalid state file
+fn file_scenarios(r: &mut Runner) {
+    let tmp_kinds = ["garbage", "empty", "trunc 50", "trunc 99", "stale", "none"];
+    for (i, kind) in tmp_kinds.iter().enumerate() {
+        // crash between the temp write and the rename of `prepared` / `started`, then the temp
+        // file is additionally damaged while the process is down
+        let mut pre: Vec<String> = vec!["reset 0".into(), "bump 2".into(), "restart aged".into()];
+        pre.extend(["fs", "fs", "fs", "fetch", "fs"].iter().map(|s| s.to_string()));
+        if i % 2 == 1 {
+            // go on to the temp write of `started`
+            pre.extend(
+                ["fs", "bcast ok", "include t1", "wait", "gettx truth", "fs"]
+                    .iter()
+                    .map(|s| s.to_string()),
+            );
+        }
+        for op in &pre {
+            r.run(op);
+        }
+        r.run("crash");
+        r.run(&format!("corrupttmp {kind}"));
+        Auto::new(true).drive(r);
+    }
+    let file_kinds = [
+        "garbage",
+        "empty",
+        "trunc 10",
+        "trunc 50",
+        "trunc 90",
+        "trunc 100",
+        "none",
+        "badprep",
+        "unknownstate",
+    ];
+    for (i, kind) in file_kinds.iter().enumerate() {
+        let mut pre: Vec<String> = vec![
+            format!("reset {}", if i % 3 == 0 { 4 } else { 0 }),
+            "bump 2".into(),
+            "restart aged".into(),
+        ];
+        pre.extend(["fs", "fs", "fs", "fetch", "fs", "fs"].iter().map(|s| s.to_string()));
+        if i % 2 == 0 {
+            pre.extend(
+                ["bcast ok", "include t1", "wait", "gettx truth", "fs", "fs"]
+                    .iter()
+                    .map(|s| s.to_string()),
+            );
+        }
+        for op in &pre {
+            r.run(op);
+        }
+        r.run("crash");
+        r.run(&format!("tamper {kind}"));
+        r.run("restart recent");
+        r.run("fs");
+        r.run("fs");
+        r.run("fs");
+        r.run("crash");
+        r.run("tamper restore");
+        Auto::new(false).drive(r);
+    }
+}
+
+fn random_session(r: &mut Runner, rng: &mut Rng, len: u32) {
+    let base = if rng.chance(65) { 0 } else { rng.range(1, 30) };
+    r.run(&format!("reset {base}"));
+    r.run(&format!("bump {}", rng.range(1, 5)));
+    let mut sleeper = false;
+    let mut queue: std::collections::VecDeque<String> = Default::default();
+    for _ in 0..len {
+        if let Some(op) = queue.pop_front() {
+            r.run(&op);
+            continue;
+        }
+        let o = r.h.obs();
+        let op: String = if !o.up {
+            let c = rng.below(100);
+            if c < 50 {
+                if rng.chance(75) { "restart aged".into() } else { "restart recent".into() }
+            } else if c < 68 && !o.mempool.is_empty() {
+                let t = *rng.pick(&o.mempool);
+                if rng.chance(70) { format!("include t{t}") } else { format!("drop t{t}") }
+            } else if c < 78 {
+                format!("bump {}", rng.range(1, 3))
+            } else if c < 90 {
+                let kinds = ["garbage", "empty", "trunc 30", "trunc 70", "trunc 99", "stale", "none"];
+                format!("corrupttmp {}", rng.pick(&kinds))
+            } else if c < 94 {
+                let kinds = ["garbage", "empty", "trunc 20", "trunc 60", "trunc 100", "none", "badprep", "unknownstate"];
+                queue.extend(
+                    ["restart recent", "fs", "fs", "crash", "tamper restore"]
+                        .iter()
+                        .map(|s| s.to_string()),
+                );
+                format!("tamper {}", rng.pick(&kinds))
+            } else {
+                "restart aged".into()
+            }
+        } else {
+            let celestia_held = o.bcast.is_some() || o.gettx.is_some();
+            let mut cand: Vec<(u64, &str)> = vec![];
+            cand.push((if r.fs_todo > 0 { 55 } else { 3 }, "fs"));
+            if o.fetch.is_some() {
+                cand.push((22, "fetch"));
+            }
+            if o.bcast.is_some() {
+                cand.push((30, "bcast"));
+            }
+            if o.gettx.is_some() {
+                cand.push((30, "gettx"));
+                cand.push((4, "giveup"));
+            }
+            if !celestia_held {
+                cand.push((if sleeper { 30 } else { 5 }, "wait"));
+            }
+            if !o.mempool.is_empty() {
+                cand.push((14, "include"));
+                cand.push((4, "drop"));
+            }
+            cand.push((4, "bump"));
+            cand.push((7, "crash"));
+            let total: u64 = cand.iter().map(|c| c.0).sum();
+            let mut x = rng.below(total);
+            let mut pick = "fs";
+            for (w, name) in &cand {
+                if x < *w {
+                    pick = name;
+                    break;
+                }
+                x -= *w;
+            }
+            match pick {
+                "bcast" => {
+                    sleeper = true;
+                    let c = rng.below(100);
+                    let o = if c < 55 {
+                        "ok"
+                    } else if c < 65 {
+                        "lost"
+                    } else if c < 73 {
+                        "code13"
+                    } else if c < 77 {
+                        "code5"
+                    } else if c < 82 {
+                        "unavail"
+                    } else if c < 85 {
+                        "empty"
+                    } else if c < 93 {
+                        "timeout-acc"
+                    } else {
+                        "timeout-noacc"
+                    };
+                    format!("bcast {o}")
+                }
+                "gettx" => {
+                    sleeper = true;
+                    let c = rng.below(100);
+                    format!("gettx {}", if c < 70 { "truth" } else if c < 90 { "h0" } else { "err" })
+                }
+                "include" | "drop" => format!("{pick} t{}", rng.pick(&o.mempool)),
+                "bump" => format!("bump {}", rng.range(1, 3)),
+                other => other.to_string(),
+            }
+        };
+        let res = r.run(&op);
+        if op == "wait" {
+            sleeper = res.starts_with("ok");
+        }
+        if op.starts_with("restart") {
+            sleeper = true;
+        }
+    }
+}
+
 #[test]
 fn driver() {
-    let trace = common::Trace::from_env();
-    trace.finish();
+    let mut rng = Rng::from_env();
+    let trace = Trace::from_env();
+    if std::env::var_os("VERIF_LOG").is_some() {
+        let _ = telemetry::configure()
+            .set_no_otel(true)
+            .set_force_stdout(true)
+            .set_filter_directives("astria_sequencer_relayer=trace,info")
+            .try_init::<crate::metrics::Metrics>(&())
+            .unwrap();
+    }
+    let root = std::env::temp_dir().join(format!("verif-crash-{}", std::process::id()));
+    let _ = std::fs::remove_dir_all(&root);
+    std::fs::create_dir_all(&root).unwrap();
+    let keyfile = root.join("celestia.key");
+    std::fs::write(
+        &keyfile,
+        b"c8076374e2a4a58db1c924e3dafc055e9685481054fe99e58ed67f5c6ed80e62",
+    )
+    .unwrap();
+    let h = Harness {
+        shared: Arc::new(Mutex::new(World::new(0))),
+        session: None,
+        root: root.clone(),
+        keyfile,
+        sess_no: 0,
+    };
+    let mut r = Runner {
+        h,
+        trace,
+        fs_todo: 0,
+        last_res: String::new(),
+        last_dump: String::new(),
+        ops: 0,
+    };
+    match common::replay_lines() {
+        Some(lines) => {
+            for op in lines {
+                r.run(&op);
+            }
+        }
+        None => {
+            for op in common::corpus_lines() {
+                r.run(&op);
+            }
+            let thorough = common::is_thorough();
+            file_scenarios(&mut r);
+            // every crash point of a 6-block run x 4 outcomes of the in-flight BlobTx
+            single_crashes(&mut r, 0, 6, true, 1);
+            single_crashes(&mut r, 0, if thorough { 6 } else { 3 }, false, 1);
+            single_crashes(&mut r, 17, if thorough { 12 } else { 3 }, true, if thorough { 1 } else { 2 });
+            if thorough {
+                double_crashes(&mut r, 6, true, 1, &[1, 2, 3, 4, 5, 6, 8, 10, 13, 17]);
+                double_crashes(&mut r, 4, false, 1, &[2, 4, 7, 9, 12]);
+            } else {
+                double_crashes(&mut r, 3, true, 3, &[2, 5, 9]);
+            }
+            let sessions = if thorough { 400 } else { 40 };
+            for _ in 0..sessions {
+                let len = rng.range(40, 160) as u32;
+                random_session(&mut r, &mut rng, len);
+            }
+        }
+    }
+    if let Some(s) = r.h.session.take() {
+        s.kill(&r.h.shared);
+    }
+    let _ = std::fs::remove_dir_all(&root);
+    eprintln!("crash harness: {} ops", r.ops);
+    r.trace.finish();
 }
